@@ -510,10 +510,17 @@ func joinWindowCase(rng *rand.Rand, w *Writer, suite string) {
 		return x
 	}
 	x1 := mk(h.gws[0])
+	t1 := time.Now()
 	world.inject(x1.p)
 	time.Sleep(30 * time.Millisecond) // well inside the first report's window
 	x2 := mk(h.gws[1])
 	world.inject(x2.p)
+	if time.Since(t1) > 250*time.Millisecond {
+		// a machine so busy that the second report may have missed the first one's window: not the case meant
+		world.quiesce()
+		w.Count("sched.joinwindow.too-late-skipped")
+		return
+	}
 	if !world.quiesce() {
 		w.Case(suite, []string{"kind=joinwindow", "pop=" + pop}, "HUNG")
 		return
